@@ -961,8 +961,20 @@ def objective_at_start(scheme):
     for g in opt._optimization_groups:
         for label in g._dataset_group.dataset_models:
             weights[label] = g._data_provider.get_weight(label)
+    # An optimisation arrives at the generating parameters after having evaluated other vectors on the same Optimizer:
+    # evaluate a perturbed vector first (seeded change C14-3: dataset scales of a linked group cached at the first
+    # evaluation). If that evaluation fails the optimiser is rebuilt, so that the evaluation at the truth is never
+    # influenced by a *failed* one (that would be C10's recorded finding D26, not C14's business).
+    x_true = np.array(x0, dtype=float)
+    if x_true.size:
+        try:
+            with np.errstate(all="ignore"):
+                opt.objective_function(x_true * 1.0625 + 0.03125)
+        except Exception:  # noqa: BLE001
+            opt = Optimizer(scheme, verbose=False, raise_exception=True)
+            opt._free_parameter_labels = labels
     try:
-        pen = np.asarray(opt.objective_function(np.array(x0, dtype=float)), dtype=float).ravel()
+        pen = np.asarray(opt.objective_function(x_true), dtype=float).ravel()
     except Exception as e:  # noqa: BLE001
         return None, weights, e
     return [float(v) for v in pen], weights, None
